@@ -15,7 +15,7 @@ def one (tid):
   tmp = tempfile.mkdtemp(prefix='benrun-', dir='/dev/shm')
   try:
     for sub in ('pox', 'ext'):
-      shutil.copytree(os.path.join('/repo', sub), os.path.join(tmp, sub), ignore=shutil.ignore_patterns('__pycache__'))
+      shutil.copytree(os.path.join(os.environ.get('REPO_ROOT', '/repo'), sub), os.path.join(tmp, sub), ignore=shutil.ignore_patterns('__pycache__'))
     r = subprocess.run(['patch', '-p1', '-s', '-f', '-d', tmp, '-i', patch], capture_output=True, text=True)
     if r.returncode != 0: return tid, prop, 'APPLY-FAILED', (r.stdout + r.stderr)[-200:]
     res = {}
